@@ -163,6 +163,12 @@ func genC04(g *Rng, tier string, emit func(Op)) {
 	for _, kc := range cases {
 		emit(declKey(kc.kp))
 	}
+	// the keyshare variant in its legacy form, with one, two and three credentials of one server
+	for n := 1; n <= 3; n++ {
+		for _, issig := range []bool{false, true} {
+			emit(legacyTwoDisclosuresOp(g, fixedKey("k1024a", true), n, issig))
+		}
+	}
 	for _, kc := range cases {
 		kp, pk := kc.kp, kc.kp.pk
 		maxbits := 0
